@@ -106,7 +106,8 @@ type IVFPQIndex struct {
 //   - distanceKind: Distance metric
 //   - nlist: Number of IVF clusters (rule of thumb: sqrt(n))
 //   - m: Number of PQ subspaces (must divide dimension evenly)
-//   - nbits: Bits per PQ code (most common: 8, which gives K=256)
+//   - nbits: Bits per PQ code (most common: 8, which gives K=256).
+//     Must be in [1,8]: each code is stored in a single byte.
 //
 // Returns:
 //   - *IVFPQIndex: New untrained IVFPQ index
@@ -133,8 +134,9 @@ func NewIVFPQIndex(dim int, distanceKind DistanceKind, nlist int, m int, nbits i
 	}
 
 	// Validate Nbits
-	if nbits <= 0 || nbits > 16 {
-		return nil, fmt.Errorf("parameter Nbits must be in [1,16]")
+	// Codes are stored as one uint8 per subspace, so centroid IDs (< 2^nbits) must fit in a byte
+	if nbits <= 0 || nbits > 8 {
+		return nil, fmt.Errorf("parameter Nbits must be in [1,8]: PQ codes are stored as one byte per subspace")
 	}
 
 	// Create distance calculator
